@@ -502,3 +502,37 @@ Proof.
   apply Forall_forall. intros m Hin. apply in_map_iff in Hin. destruct Hin as [e [Hm He]]. subst m.
   apply payload_size_entry. unfold wf_listing_b in H. rewrite forallb_forall in H. apply H. exact He.
 Qed.
+
+(* the same for any listing handed to WriteTar (a filtered walk) *)
+Lemma members_are_listing_proof : forall l, wf_listing_b (reset_entries l) = true ->
+  write_tar_listing l = TarOk (tar_members_listing l)
+  /\ Forall2 member_of (reset_entries l) (tar_members_listing l)
+  /\ Forall (fun m : member => h_size (fst m) = blen (snd m)) (tar_members_listing l).
+Proof.
+  intros l H. unfold write_tar_listing, tar_members_listing. split; [| split].
+  - apply write_listing_wf. exact H.
+  - apply members_forall2. exact H.
+  - unfold tar_of_listing. apply Forall_forall. intros m Hin. apply in_map_iff in Hin.
+    destruct Hin as [e [Hm He]]. subst m. apply payload_size_entry.
+    unfold wf_listing_b in H. rewrite forallb_forall in H. apply H. exact He.
+Qed.
+
+(* ------------------------------------------------------------------ *)
+(* small facts shared by TarExtractP.v and TarSpecP.v *)
+Lemma typeflag_link_iff : forall m ln,
+  N.eqb (hdr_typeflag m ln) TypeLink = negb (is_nil ln) && negb (mode_is_symlink m).
+Proof.
+  intros m ln. unfold hdr_typeflag. destruct ln as [| c r]; cbn [is_nil negb andb].
+  - unfold fih_typeflag.
+    repeat match goal with |- context [if ?b then _ else _] => destruct b end; reflexivity.
+  - destruct (mode_is_symlink m); reflexivity.
+Qed.
+
+Lemma regular_not_symlink : forall m, mode_is_regular m = true -> mode_is_symlink m = false.
+Proof.
+  intros m H. unfold mode_is_regular in H. apply N.eqb_eq in H.
+  unfold mode_is_symlink, has_bits. rewrite (land_submask _ ModeType ModeSymlink eq_refl H). reflexivity.
+Qed.
+
+Lemma blen_0 : forall c, blen c = 0 -> c = [].
+Proof. intros c H. destruct c; [reflexivity |]. unfold blen in H. simpl length in H. lia. Qed.
